@@ -54,6 +54,8 @@ SCOPE = {"quick": "701 exhaustive datasets (n<=3, m<=2) x 2 schemes + 700 sample
                      "m<=5) x 5 schemes, 7 configurations; 1500 kernel cases"}
 EXHAUSTIVE = {"quick": False, "thorough": False}
 CHUNK = 4
+# every 6th case is run a second time with every algorithm object used before on related inputs (bounded/algs.py: warm)
+WARM_EVERY = {"quick": 6, "thorough": 6}
 TIMEOUT = 300
 
 
